@@ -213,7 +213,7 @@ def retained_bytes(client):
     return total
 
 
-def run_case(items, cuts, measure=True, big_noise=0):
+def run_case(items, cuts, measure=True, big_noise=0, gap=(0, 0.0)):
     stream = b"".join(b for _, b, _ in items)
     s = aio.Session("waveshare")
     s.sizes = []
@@ -236,8 +236,13 @@ def run_case(items, cuts, measure=True, big_noise=0):
                 if measure and (fed // len(blob)) % 16 == 0:
                     s.sizes.append(retained_bytes(c) - s.baseline)
         pos = 0
-        for cut in list(cuts) + [len(stream)]:
+        for ci, cut in enumerate(list(cuts) + [len(stream)]):
             if cut > pos:
+                if gap[0] and ci % gap[0] == gap[0] - 1:
+                    # a quiet bus: time passes (event-loop clock and process clocks) before the next bytes arrive
+                    from ..common import CLOCK
+                    CLOCK.warp(gap[1])
+                    await asyncio.sleep(gap[1])
                 link.feed(stream[pos:cut])
                 pos = cut
                 await asyncio.sleep(0.01)
@@ -282,15 +287,16 @@ def evaluate(items, cuts, outcome, s, case):
     return out
 
 
-def to_case(items, cuts):
-    return {"items": [[k, b.hex(), n] for k, b, n in items], "cuts": cuts}
+def to_case(items, cuts, gap=(0, 0.0)):
+    return {"items": [[k, b.hex(), n] for k, b, n in items], "cuts": cuts, "gap": list(gap)}
 
 
 def _work(ctx: Ctx, item):
     n, maxnoise = item
 
-    def one(c):
+    def one(c, gap_every, gap_len):
         items, cuts, ok = c
+        gap = (gap_every, gap_len)
         if not ok:
             ctx.klass("construction_rejected_chance_checksum")
             return []
@@ -301,13 +307,15 @@ def _work(ctx: Ctx, item):
             ctx.nt((tuple(b for _, b, _ in items), tuple(cuts)))
         for k in set(kinds):
             ctx.klass("stream_with_" + k)
-        outcome, s = run_case(items, cuts)
+        outcome, s = run_case(items, cuts, gap=gap)
+        if gap_every:
+            ctx.klass("stream_with_quiet_gaps")
         ctx.klass("delivered", len(s.received))
         if ctx.evaluations % 20 == 1:
             ctx.sample({"items": [(k, len(b)) for k, b, _ in items], "cuts": len(cuts), "delivered": len(s.received), "max_retained": max(s.sizes or [0])})
-        return evaluate(items, cuts, outcome, s, to_case(items, cuts))
+        return evaluate(items, cuts, outcome, s, to_case(items, cuts, gap))
 
-    ctx.hyp(one, streams(maxnoise), max_examples=n, name="serial")
+    ctx.hyp(one, streams(maxnoise), st.sampled_from([0, 0, 0, 1, 2, 3, 5]), st.sampled_from([1.5, 5.0, 60.0]), max_examples=n, name="serial")
 
 
 def _scenarios(ctx: Ctx, item):
@@ -329,11 +337,15 @@ def _scenarios(ctx: Ctx, item):
                 pos += len(b)
                 if 0 < pos < len(stream) and pos not in borders:
                     borders.append(pos)
-            for cuts in ([], borders, borders[:1], list(range(1, len(stream))), [b + 1 for b in borders if b + 1 < len(stream)]):
+            mids = sorted({b_ - 9 for b_ in borders if b_ > 9} | {b_ + 7 for b_ in borders if b_ + 7 < len(stream)})
+            for cuts, gap in (([], (0, 0.0)), (borders, (0, 0.0)), (borders[:1], (0, 0.0)), (list(range(1, len(stream))), (0, 0.0)),
+                              ([b + 1 for b in borders if b + 1 < len(stream)], (0, 0.0)),
+                              # reads that end inside a packet, each after a quiet gap
+                              (mids, (1, 1.5)), (mids, (2, 30.0)), (borders, (1, 2.0))):
                 ctx.count()
                 ctx.nontrivial_extra += 1
-                outcome, s_ = run_case(items, cuts)
-                for b, w, c in evaluate(items, cuts, outcome, s_, to_case(items, cuts)):
+                outcome, s_ = run_case(items, cuts, gap=gap)
+                for b, w, c in evaluate(items, cuts, outcome, s_, to_case(items, cuts, gap)):
                     ctx.report(b, w, c)
     ctx.klass("boundary_scenarios")
 
@@ -349,7 +361,13 @@ def _big(ctx: Ctx, item):
         ctx.report(b, w, c)
 
 
+def _dual(ctx: Ctx, item):
+    from .. import clientopts as co
+    co.dual_pass(ctx, "C20", item[0])
+
+
 def run(ctx: Ctx):
+    pmap(ctx, _dual, [("waveshare",)])
     n = 40 if ctx.quick else 6000
     pmap(ctx, _work, [(n, 5000)] * 16)
     pmap(ctx, _scenarios, [(0,), (1,)])
@@ -361,6 +379,9 @@ def run(ctx: Ctx):
 
 
 def replay(ctx: Ctx, case):
+    if case.get("dual"):
+        from .. import clientopts as co
+        return co.dual_replay("C20", "C20", case)
     items = [(k, bytes.fromhex(h), n) for k, h, n in case["items"]]
-    outcome, s = run_case(items, case["cuts"], big_noise=case.get("big_noise", 0))
+    outcome, s = run_case(items, case["cuts"], big_noise=case.get("big_noise", 0), gap=tuple(case.get("gap", (0, 0.0))))
     return evaluate(items, case["cuts"], outcome, s, case)
